@@ -29,6 +29,11 @@ ABNORMAL = [-9, -11, -6, -7, -8, -4, 1, 2, 70, 255]
 CLEANISH = [0, 155]
 
 
+class Propagated(Exception):
+    """raised by a result callback and listed in callbacks_propagate: the
+    pool lets it through to whoever drives the result handler"""
+
+
 class HarnessError(Exception):
     pass
 
@@ -140,6 +145,7 @@ class JobRec:
         self.hard = None
         self.soft = None
         self.slot = False
+        self.cb_raises = False
         self.discarded = False
         self.lost_mark = None     # (vt, status, pid)   model
         self.must = None          # outcome class the model requires once resolved
@@ -648,6 +654,8 @@ class Sim:
                 j.cb['timeout'].append((kw.get('soft'), kw.get('timeout')))
             else:
                 j.cb[which] += 1
+                if which == 'ok' and j.cb_raises:
+                    raise Propagated('callback of job %r' % (j.jid,))
         return cb
 
     def submit_apply(self, via_handler=False, unpicklable=False, limits=True):
@@ -674,6 +682,11 @@ class Sim:
                 return None
         holder = {}
         j = JobRec('apply', None, None, 1)
+        if p.get('cb_raise') and not via_handler and rng.random() < p['cb_raise']:
+            # its success callback raises an exception the caller asked to
+            # be let through
+            j.cb_raises = True
+            kw['callbacks_propagate'] = (Propagated,)
         args = ((lambda: 0),) if unpicklable else ('x',)
         old_threads = self.pool.threads
         if via_handler:
@@ -910,6 +923,16 @@ class Sim:
             pool.handle_result_event()
         except HarnessError:
             raise
+        except Propagated as exc:
+            if st == 1 and live_job and j.cb_raises and j.cb['ok'] == 1:
+                self.stat('propagated_callback_errors')
+                # the aborted pass leaves a finished iterator behind: the
+                # next event only clears it (an event loop is called again
+                # while the descriptor stays readable)
+                pool.handle_result_event()
+            else:
+                self.viol({'C01'}, 'result_handler_raised', {'dup': is_dup},
+                          msg=repr(msg)[:300], exc=repr(exc))
         except Exception as exc:
             self.viol({'C01'}, 'result_handler_raised', {'dup': is_dup},
                       msg=repr(msg)[:300], exc=repr(exc),
